@@ -9,7 +9,9 @@
    round, a curator leader change, a curator node restart, raft calling FSM.Snapshot() on the leader (EvSnapTake: the
    state is serialised at that index) and, any number of events later, Snapshoter.Save() plus a replica that is not
    ahead of the snapshot restoring it and replaying the log from the snapshot's index (EvSnapInstall), and a heartbeat
-   round whose SyncPartitions proposal fails transiently (EvCHeartbeatSyncFail: nothing committed, cache untouched).  [run evs] is the world after the events, [h_cids],
+   round whose SyncPartitions proposal fails transiently (EvCHeartbeatSyncFail: nothing committed, cache untouched),
+   and a partition-monitor round whose reply ARRIVES but whose AddPartition commit fails transiently
+   (EvCMonitorCommitFail: the assignment exists only at the master; durable set and cache untouched).  [run evs] is the world after the events, [h_cids],
    [h_tsids], [h_parts] are ghost lists of everything the master ever returned.
    [bounded evs]: fewer than 2^32 - 3 events, so that the uint32 counters do not wrap; it is the only hypothesis.
    Since fix ca0788b (SnapshotRestore decodes into a fresh State) the model's [restore_into] is plain replacement and
@@ -115,6 +117,17 @@ Example demo_sync_fail_ok :
   c_parts (w_cur (run demo_sync_fail)) = [1] /\
   n_cache (nth 0 (w_nodes (run demo_sync_fail)) node0) = [1] /\
   c_parts (w_cur (run (demo_sync_fail ++ [EvCHeartbeat 0 false]))) = [1; 2].
+Proof. vm_compute. repeat split; reflexivity. Qed.
+
+(* the partition monitor receives partition 2 but its commit fails (term change between receive and commit):
+   durable set and cache stay [1]; the next completed heartbeat round recovers partition 2 *)
+Definition demo_commit_fail : list event :=
+  [EvCStart 0; EvCRegister 0 false; EvCCommitReg 0; EvCNewPart 0 false; EvCCommitPart 0; EvCMonitorCommitFail 0].
+Example demo_commit_fail_ok :
+  h_parts (run demo_commit_fail) = [(1, 1); (2, 1)] /\
+  c_parts (w_cur (run demo_commit_fail)) = [1] /\
+  n_cache (nth 0 (w_nodes (run demo_commit_fail)) node0) = [1] /\
+  c_parts (w_cur (run (demo_commit_fail ++ [EvCHeartbeat 0 false]))) = [1; 2].
 Proof. vm_compute. repeat split; reflexivity. Qed.
 
 (* on the F7 witnesses the repaired model hands out fresh ids / partitions, the unrepaired one duplicates *)
